@@ -68,7 +68,7 @@ def _do_read(x, is_dict, r):
                 pass
 
 
-def run_case(ns, cname, is_dict, threads, wc, exists, leftover, ctx):
+def run_case(ns, cname, is_dict, threads, wc, exists, leftover, ctx, model_ops=()):
     """returns a list of messages (violations)"""
     d = tempfile.mkdtemp(prefix="scverif_c17_")
     out = os.path.join(d + "_out.json")
@@ -110,11 +110,11 @@ def run_case(ns, cname, is_dict, threads, wc, exists, leftover, ctx):
 
             def judge(what):
                 muts = [l for l in crash.canonical(tr.events, [p])[0] if l != "encode"]
-                if muts and not msgs:
+                if muts != list(model_ops) and not msgs:
                     msgs.append("%s(filename=<dir>/data.json%s), threading %s, file %s, directory also holds %s: %s issued mutating file "
-                                "operations %s (0 = data.json, 100+ = other paths)" % (
+                                "operations %s (0 = data.json, 100+ = other paths); the model's load program (FS.loadProgram) issues %s" % (
                                     cname, ", write_concern=True" if wc else "", "on" if threads else "off",
-                                    "exists" if exists else "missing", sorted(files) or "nothing", what, muts[:6]))
+                                    "exists" if exists else "missing", sorted(files) or "nothing", what, muts[:6], list(model_ops)))
                 now = _snapshot(d)
                 if now != before and not msgs:
                     created = sorted(set(now) - set(before))
@@ -171,15 +171,25 @@ def cases():
     return out
 
 
+def model_load_ops(ns):
+    """what the Lean model says a load does to the file system (`fs load` query = FS.loadProgram)"""
+    import drive
+    md = drive.ModelDriver(ns)
+    line = md.query("fs load 0")
+    assert line.startswith("ops:"), line
+    return [x for x in line[4:].strip().split("; ") if x]
+
+
 def unit_c17_leftovers(args):
     part, parts, seed = args
     ns = env.load()
+    mops = model_load_ops(ns)
     res = dict(kind="oracle", fam=0, seed=seed, profile="c17/leftovers", steps=0, stats={"cases": 0, "reads": 0}, violations=[])
     cs = cases()
     for i, c in enumerate(cs):
         if i % parts != part:
             continue
-        msgs, crashed = run_case(ns, *c)
+        msgs, crashed = run_case(ns, *c, model_ops=mops)
         res["stats"]["cases"] += 1
         res["stats"]["reads"] += len(READS)
         res["steps"] += len(READS)
@@ -194,7 +204,7 @@ def unit_c17_leftovers(args):
 
 def replay(prop, path, payload, ns):
     c = payload["extra"]["case"]
-    msgs, crashed = run_case(ns, *c)
+    msgs, crashed = run_case(ns, *c, model_ops=model_load_ops(ns))
     for m in msgs:
         print("VIOLATION property=%s replay=%s" % (prop, path))
         print("  " + m[:600])
